@@ -37,6 +37,24 @@ Part D  re-inclusion shortcuts: 1752 file shapes over {leading text, #ifndef G |
         #define G | none | other, nested conditionals in the body, the guard's own #else/#elif, trailing text /
         second conditional, #pragma once at top / inside / end} x 24 include scripts (2-3 inclusions, G kept /
         #undef'd between / pre-defined, same / "./" / <> spelling): output = plain textual inclusion (+ #pragma once).
+Part D2 re-inclusion shortcuts x PATH SPELLING (which file a #pragma once / a detected guard belongs to).  A project
+        tree with one header basename in 7 directories (a different copy in each; w/ w/r w/r/s w/r/s/t w/r/o w/r/o/q
+        w/r/o/t) and symbolic links (s/lk -> ../o/q so that lk/.. is NOT s; s/t/up -> ../..; ln.h -> c.h file links).
+        Reference = quote form (relative to the primary file's directory) | angle form (relative to the project root,
+        the only -I directory, named relative to the compiler's cwd) x EVERY spelling of <= 3 (thorough 4; angle 3)
+        components over {., .., empty (`//`, quote form only), r, s, t, o, q, lk, up} + {c.h, ln.h} that names an
+        existing file (104 / 124 spellings from w/r/s/t / w/r at <= 3 components; 455 at 4) + 3 absolute paths.
+        Case = ordered pair of references with one member of <= 2 components (thorough: also every pair <= 3 and every
+        triple of quote-form references <= 2) x header kind {#pragma once, own guard, nothing; thorough + both, guard
+        #undef'd between} x configuration (compiler cwd = project root | source directory two levels down | sibling |
+        above the root | inside a symlinked directory; primary file named bare, relative with leading `..`, `./`,
+        absolute; -I as `.`, `../..`, `../../`, `../r`, `./../..`, absolute): 5 configurations quick, 10 thorough.
+        Files are IDENTIFIED BY WHAT THE SPELLING RESOLVES TO (model VFS with POSIX resolution == kernel realpath ==
+        gcc): (b) two different files are NEVER conflated, however alike the spellings look after a textual
+        simplification (`../../c.h` vs `c.h`, `lk/../t/c.h` vs `t/c.h`, `./x/../../c.h`, same basename, `./`, `//`) -
+        both are included, always judged; (a) the same file through the same reference: #pragma once suppresses;
+        through another spelling with #pragma once only: implementation-defined, included once or twice both
+        accepted; guarded / unguarded files: plain textual inclusion (same output whichever way the file is recognised).
 Part E  every sequence of <= 3 (thorough 4) options from {-DX, -DX=2, -D X=3, -DY=X, -D'F(x)=x+Y', -UX, -U X,
         -include a.h|b.h|g.h|c.h(found via -I)} x position of -I, against the same directives written in a file
         (model, gcc, and chibicc itself on that file).
@@ -1255,6 +1273,477 @@ def part_d(ctx):
 
 
 # =====================================================================================================
+# Part D2: re-inclusion shortcuts x path spelling (which FILE a #pragma once / a detected guard belongs to)
+# =====================================================================================================
+# A small project tree with symbolic links; one header basename has a DIFFERENT copy in seven directories:
+#   w/            c.h                      (w = parent of the project root)
+#   w/r/          c.h  main.c              (project root)
+#   w/r/s/        c.h  lk -> ../o/q        (lk/.. is w/r/o, NOT w/r/s)
+#   w/r/s/t/      c.h  main.c  up -> ../..  ln.h -> c.h          (sub-directory two levels down; up/.. is w)
+#   w/r/o/        c.h  ln.h -> ../c.h
+#   w/r/o/q/      c.h
+#   w/r/o/t/      c.h
+# A REFERENCE is (form, spelling): quote form = spelling relative to the directory of the primary file, angle form =
+# spelling relative to the project root, which is the only -I directory (given relative to the compiler's cwd).
+# Spellings = EVERY sequence of <= n components over P_COMPS followed by c.h | ln.h that names an existing file
+# (+ the absolute paths of three copies).  A case = a primary file with 2 (thorough: also 3) references, every header
+# copy being of one KIND (#pragma once | its own guard | both | nothing), run under a CONFIGURATION = (compiler cwd,
+# how the primary file is named on the command line, how -I names the root).
+# Expected = textual inclusion where a file is IDENTIFIED BY WHAT THE SPELLING RESOLVES TO (POSIX resolution, model VFS,
+# cross-checked against the real tree with os.path.realpath, and against gcc):
+#   * two different files are never conflated: both are included, whatever their spellings look like after any textual
+#     simplification (`../../c.h` / `c.h`, `lk/../t/c.h` / `t/c.h`, same basename, `./`, `//`) - ALWAYS judged;
+#   * the same file through the same reference with #pragma once: suppressed - judged;
+#   * the same file through two different references with #pragma once (no guard): implementation-defined whether it
+#     is recognised; included once (gcc: identity) or twice (chibicc: name) are both accepted, anything else is not;
+#   * guarded / unguarded files: plain textual inclusion (the guard does the suppression, identical either way).
+P_DIRS = {"w": "/w", "r": "/w/r", "s": "/w/r/s", "st": "/w/r/s/t", "o": "/w/r/o", "oq": "/w/r/o/q", "ot": "/w/r/o/t"}
+P_DIRLINKS = {"/w/r/s/lk": "../o/q", "/w/r/s/t/up": "../.."}
+P_FILELINKS = {"/w/r/s/t/ln#.h": "c#.h", "/w/r/o/ln#.h": "../c#.h"}       # '#' = index of the case in its batch
+P_COMPS = [".", "..", "", "r", "s", "t", "o", "q", "lk", "up"]
+P_LEAVES = ["c#.h", "ln#.h"]
+P_ABS = ["st", "r", "s"]                    # copies also named by their absolute path
+P_KINDS = {"once": "#pragma once\nB@K_%s\n",
+           "guard": "#ifndef G@K_%s\n#define G@K_%s\nB@K_%s\n#endif\n",
+           "plain": "B@K_%s\n",
+           "once+guard": "#pragma once\n#ifndef G@K_%s\n#define G@K_%s\nB@K_%s\n#endif\n"}
+# (label, compiler cwd, directory of the primary file, name of the primary file as given, -I argument naming /w/r)
+P_CONFIGS = [
+    ("cwd=source-dir-2-levels-down|primary=main.c", "/w/r/s/t", "st", "main.c", "../.."),
+    ("cwd=project-root|primary=s/t/main.c", "/w/r", "st", "s/t/main.c", "."),
+    ("cwd=project-root|primary=main.c-in-root", "/w/r", "r", "main.c", "../r"),
+    ("cwd=2-levels-down|primary=../../main.c", "/w/r/s/t", "r", "../../main.c", "../../"),
+    ("cwd=2-levels-down|primary=absolute", "/w/r/s/t", "st", "@W@/r/s/t/main.c", "@W@/r"),
+    # thorough only
+    ("cwd=sibling-dir|primary=../s/t/main.c", "/w/r/o", "st", "../s/t/main.c", ".."),
+    ("cwd=above-root|primary=r/s/t/main.c", "/w", "st", "r/s/t/main.c", "r"),
+    ("cwd=1-level-down|primary=t/main.c", "/w/r/s", "st", "t/main.c", ".."),
+    ("cwd=2-levels-down|primary=./main.c", "/w/r/s/t", "st", "./main.c", "./../.."),
+    ("cwd=symlinked-dir|primary=../../s/t/main.c", "/w/r/s/lk", "st", "../../s/t/main.c", "../.."),
+]
+P_NQUICK = 5
+P_BATCH = 250
+
+
+def p_vfs(indices=(0,)):
+    files, links = {}, dict(P_DIRLINKS)
+    for k in indices:
+        for tag, d in P_DIRS.items():
+            files["%s/c%d.h" % (d, k)] = tag
+        for l, t in P_FILELINKS.items():
+            links[l.replace("#", str(k))] = t.replace("#", str(k))
+    for tag in ("st", "r"):
+        files[P_DIRS[tag] + "/main.c"] = "main"
+    return M.VFS(P_DIRS.values(), files, links)
+
+
+def p_header(kind, tag, k):
+    return (P_KINDS[kind] % ((tag,) * P_KINDS[kind].count("%s"))).replace("@K", str(k))
+
+
+def p_refs(pdir, maxlen):
+    """References usable from a primary file in directory pdir: (form, spelling with '#', level, tag of the file)."""
+    v = p_vfs()
+    tagof = {"%s/c0.h" % d: t for t, d in P_DIRS.items()}
+    refs = []
+    for form, base in (("q", P_DIRS[pdir]), ("a", P_DIRS["r"])):
+        # `//` inside <...> is undefined behaviour (6.4.7p3; chibicc lexes it as a comment and rejects the directive): the
+        # empty component appears in quote-form names only (equally undefined on paper, but the model, gcc and chibicc
+        # all read the string as a file name), and in the -I argument of one configuration
+        comps = [c for c in P_COMPS if c != "" or form == "q"]
+        for sp, n, f in M.path_spellings(v, base, comps, [l.replace("#", "0") for l in P_LEAVES], maxlen):
+            refs.append((form, sp[:-5] + "ln#.h" if sp.endswith("ln0.h") else sp[:-4] + "c#.h", n, tagof[f]))
+    for tag in P_ABS:
+        refs.append(("q", "@W@" + P_DIRS[tag][2:] + "/c#.h", 2, tag))
+    return refs
+
+
+def p_scripts(tier, refs):
+    """Index tuples into refs.  quick: every ordered pair with one member of <= 2 components and the other of <= 3;
+    thorough: one member <= 2 and the other <= 4 (angle form <= 3), every pair where both are <= 3, and every triple of
+    quote-form references of <= 2 components."""
+    full = tier != "quick"
+    lo = [i for i, r in enumerate(refs) if r[2] <= 2]
+    hi = [i for i, r in enumerate(refs) if r[2] <= 3 or (full and r[0] == "q")]
+    mid = [i for i, r in enumerate(refs) if r[2] <= 3] if full else lo
+    los, mids = set(lo), set(mid)
+    out = [(i, j) for i in hi for j in hi if i in los or j in los or (i in mids and j in mids)]
+    if full:
+        ql = [i for i in lo if refs[i][0] == "q"]
+        out += list(itertools.product(ql, repeat=3))
+    return out
+
+
+def p_directive(ref, k, w):
+    sp = ref[1].replace("#", str(k)).replace("@W@", w)
+    return '#include "%s"\n' % sp if ref[0] == "q" else "#include <%s>\n" % sp
+
+
+def p_case_text(refs, script, k, w, undef=False):
+    o = []
+    for n, i in enumerate(script):
+        if n:
+            o.append("M%d\n" % n)
+            if undef:
+                o.append("#undef G%d_%s\n" % (k, refs[script[0]][3]))
+        o.append(p_directive(refs[i], k, w))
+    return "".join(o)
+
+
+def p_accept(kind, refs, script, k, undef):
+    """-> (slots, optional): slots[n] = tokens expected for the n-th reference when files are identified by what the
+    spelling resolves to; optional[n] = True where including the file once more is implementation-defined."""
+    slots, opt = [], []
+    seen_files, seen_refs = set(), set()
+    guards = set()
+    for n, i in enumerate(script):
+        tag = refs[i][3]
+        tok = ["B%d_%s" % (k, tag)]
+        if undef and n:
+            guards.discard(refs[script[0]][3])
+        if "once" in kind and tag in seen_files:
+            slots.append([])
+            # the same reference again names the same file by the same path: must be suppressed; another spelling
+            # of the same file may or may not be recognised (with a guard the text is suppressed either way)
+            opt.append(i not in seen_refs and tag not in guards)
+        elif "guard" in kind and tag in guards:
+            slots.append([])
+            opt.append(False)
+        else:
+            slots.append(tok)
+            opt.append(False)
+        seen_files.add(tag)
+        seen_refs.add(i)
+        if "guard" in kind:
+            guards.add(tag)
+    return slots, opt
+
+
+def p_streams(slots, opt, k, refs, script):
+    """All acceptable token streams of one case (the model's own first)."""
+    alts = [[]]
+    for n, (sl, op) in enumerate(zip(slots, opt)):
+        choices = [sl] + ([["B%d_%s" % (k, refs[script[n]][3])]] if op else [])
+        alts = [a + (["M%d" % n] if n else []) + c for a in alts for c in choices]
+    return alts
+
+
+def p_split(toks, nslots):
+    """Token stream of a case -> list of slots, or None when the M markers are not all there in order."""
+    out, cur, want = [], [], 1
+    for t in toks:
+        if t[0] == "M" and t[1:].isdigit():
+            if t != "M%d" % want:
+                return None
+            out.append(cur)
+            cur, want = [], want + 1
+        else:
+            cur.append(t)
+    out.append(cur)
+    return out if len(out) == nslots else None
+
+
+def p_sig(kind, refs, script, slots, opt, st, got, k, undef):
+    kd = kind + ("|guard-undefined-between" if undef else "")
+    if st != 0:
+        return "%s|%s" % (kd, "crash" if isinstance(st, int) and st < 0 else "rejected")
+    gs = p_split(got or [], len(script))
+    if gs is None:
+        return "%s|garbled" % kd
+    for n, (sl, op, g) in enumerate(zip(slots, opt, gs)):
+        tag = refs[script[n]][3]
+        own = ["B%d_%s" % (k, tag)]
+        if g == sl or (op and g == own):
+            continue
+        earlier = [refs[i][3] for i in script[:n]]
+        if n == 0:
+            rel = "first-inclusion"
+        elif tag not in earlier:
+            rel = "different-files"
+        elif script[n] in script[:n]:
+            rel = "same-file-same-spelling"
+        else:
+            rel = "same-file-other-spelling"
+        if not g:
+            dev = "file-not-included"
+        elif g == own:
+            dev = "file-included-again"
+        elif len(g) == 1 and g[0].startswith("B%d_" % k):
+            dev = "earlier-file-included-instead" if g[0][len("B%d_" % k):] in earlier else "other-file-included"
+        else:
+            dev = "wrong-tokens"
+        return "%s|%s|%s" % (kd, rel, dev)
+    return "%s|garbled" % kd
+
+
+def p_build_tree(wd, kind, indices):
+    """The real tree under wd/w.  -> real path of w"""
+    shutil.rmtree(wd, ignore_errors=True)
+    w = os.path.join(os.path.realpath(os.path.dirname(wd)), os.path.basename(wd), "w")
+    for d in P_DIRS.values():
+        os.makedirs(w + d[2:], exist_ok=True)
+    for l, t in P_DIRLINKS.items():
+        os.symlink(t, w + l[2:])
+    for k in indices:
+        for tag, d in P_DIRS.items():
+            with open("%s%s/c%d.h" % (w, d[2:], k), "w") as f:
+                f.write(p_header(kind, tag, k))
+        for l, t in P_FILELINKS.items():
+            os.symlink(t.replace("#", str(k)), w + l[2:].replace("#", str(k)))
+    return w
+
+
+def p_run(argv0, w, cfg, src_text, gcc):
+    label, cwd, pdir, name, inc = cfg
+    with open(w + P_DIRS[pdir][2:] + "/main.c", "w") as f:
+        f.write(src_text)
+    name, inc = name.replace("@W@", w), inc.replace("@W@", w)
+    if gcc:
+        argv = GCC + ["-I" + inc, name]
+    else:
+        argv = [argv0, "-cc1", "-E", "-I" + inc, "-cc1-input", name, name]
+    return core.run_limited(argv, cwd=w + cwd[2:], timeout=30)
+
+
+def p_task(args):
+    chibicc, wd, ci, kind, tier, part, nparts, undef, deadline = args
+    cfg = P_CONFIGS[ci]
+    refs = p_refs(cfg[2], 4 if tier != "quick" else 3)
+    scripts = p_scripts(tier, refs)
+    if undef:       # the guard of the first file #undef'd before every later reference: short references only
+        scripts = [s for s in scripts if all(refs[i][2] <= 2 for i in s)]
+    scripts = scripts[part::nparts]
+    res = {"n": 0, "judged": 0, "disagree": 0, "disagree_ex": None, "viol": {}, "runs": 0, "different_files": 0,
+           "same_file_other_spelling": 0, "same_file_same_spelling": 0, "impl_defined_slots": 0,
+           "chibicc_includes_again": 0, "chain_diff": 0, "timeouts": 0, "cut": 0}
+    w = p_build_tree(wd, kind, range(P_BATCH))
+    vfs = p_vfs(range(P_BATCH))
+    mfiles = {}
+    for k in range(P_BATCH):
+        for tag, d in P_DIRS.items():
+            mfiles["%s/c%d.h" % (d, k)] = p_header(kind, tag, k)
+    vfs.files = mfiles
+    ppath = P_DIRS[cfg[2]] + "/main.c"
+
+    def run(texts, gcc):
+        def runner(src, opts, cwd):
+            res["runs"] += 1
+            with open(src) as f:
+                return p_run(chibicc, w, cfg, f.read(), gcc)
+        return run_batch(runner, wd, texts, name="batch.c")
+
+    for batch in core.chunks(scripts, P_BATCH):
+        if time.time() > deadline:
+            res["cut"] = 1
+            break
+        items = []
+        for k, sc in enumerate(batch):
+            slots, opt = p_accept(kind, refs, sc, k, undef)
+            items.append((sc, k, slots, opt))
+        texts = [p_case_text(refs, sc, k, w, undef) for sc, k, _, _ in items]
+        # model: textual inclusion over the VFS, files identified by what the spelling resolves to
+        mtexts = [p_case_text(refs, sc, k, "/w", undef) for sc, k, _, _ in items]
+        mfiles[ppath] = "".join("S%d\n%s" % (k, t) for k, t in enumerate(mtexts)) + "S%d\n" % len(mtexts)
+        exp_all = segments(" ".join(M.Cpp(mfiles, [P_DIRS["r"]], vfs=vfs).run(ppath)), len(mtexts))
+        r_c = run(texts, False)
+        r_g = run(texts, True)
+        for (sc, k, slots, opt), txt, exp, (sc_, tc, ec), (sg, tg, eg) in zip(items, texts, exp_all, r_c, r_g):
+            res["n"] += 1
+            if sg == "timeout" or sc_ == "timeout":     # load on the machine, never a verdict (nor an oracle disagreement)
+                res["timeouts"] += 1
+                continue
+            first = p_streams(slots, opt, k, refs, sc)[0]
+            if exp != first or sg != 0 or tg != exp:
+                res["disagree"] += 1
+                res["disagree_ex"] = res["disagree_ex"] or (cfg[0], kind, txt, first, exp, tg if sg == 0 else "rejected: " + eg)
+                continue
+            res["judged"] += 1
+            tags = [refs[i][3] for i in sc]
+            for n in range(1, len(sc)):
+                res["different_files" if tags[n] not in tags[:n] else "same_file_same_spelling" if sc[n] in sc[:n]
+                    else "same_file_other_spelling"] += 1
+            res["impl_defined_slots"] += sum(opt)
+            ok = p_streams(slots, opt, k, refs, sc)
+            if sc_ == 0 and tc in ok:
+                if tc != ok[0]:
+                    res["chibicc_includes_again"] += 1
+                continue
+            # deviating inside the batch: the case alone decides
+            (sa, ta, ea), = run([txt], False)
+            if sa == "timeout":
+                res["timeouts"] += 1
+                res["judged"] -= 1
+                continue
+            if sa == 0 and ta in ok:
+                res["chain_diff"] += 1
+                sig = "%s|differs-after-other-headers-were-read" % kind
+                alone = False
+            else:
+                sig = p_sig(kind, refs, sc, slots, opt, sa, ta, k, undef)
+                alone = True
+                sc_, tc, ec = sa, ta, ea
+            v = res["viol"].setdefault(sig, [0, None])
+            v[0] += 1
+            size = len(txt) + (0 if alone else 100000)
+            if v[1] is None or size < v[1][0]:
+                if alone:       # stand-alone rendering with index 0
+                    sl0, op0 = p_accept(kind, refs, sc, 0, undef)
+                    v[1] = (size, ci, kind, (0,), p_case_text(refs, sc, 0, "@W@", undef), p_streams(sl0, op0, 0, refs, sc),
+                            [t.replace("B%d_" % k, "B0_") for t in (tc or [])], str(sc_), ec[-300:],
+                            [(refs[i][0], refs[i][1].replace("#", "0"), refs[i][3]) for i in sc])
+                else:           # the whole batch is the reproducer
+                    whole = "".join("S%d\n%s" % (j, p_case_text(refs, s2, k2, "@W@", undef)) for j, (s2, k2, _, _) in enumerate(items))
+                    allexp = []
+                    for (s2, k2, sl2, op2) in items:
+                        allexp += ["S%d" % k2] + p_streams(sl2, op2, k2, refs, s2)[0]
+                    v[1] = (size, ci, kind, tuple(range(len(items))), whole + "S%d\n" % len(items),
+                            [allexp + ["S%d" % len(items)]], ["<stream of the whole batch>"], str(sc_), ec[-300:],
+                            [(refs[i][0], refs[i][1].replace("#", str(k)), refs[i][3]) for i in sc])
+    shutil.rmtree(wd, ignore_errors=True)
+    return res
+
+
+P_REPLAY = r"""TOP=$(pwd -P); W=$TOP/w
+while read tgt name; do mkdir -p "$(dirname "w/$name")"; ln -sfn "$tgt" "w/$name"; done < links.txt
+sed "s|@W@|$W|g" main.tmpl > "w/$(cat primary.txt)"
+NAME=$(sed "s|@W@|$W|g" name.txt); INC=$(sed "s|@W@|$W|g" inc.txt)
+cd "w/$(cat cwd.txt)" || exit 0
+$CHIBICC -cc1 -E "-I$INC" -cc1-input "$NAME" "$NAME" > $TOP/got.txt 2> $TOP/err.txt || exit 1
+cd $TOP
+for e in expected*.txt; do python3 $VERIF/harness/c10_cmp.py got.txt $e && exit 0; done
+exit 1"""
+
+
+def p_replay_files(ci, kind, indices, main, streams):
+    label, cwd, pdir, name, inc = P_CONFIGS[ci]
+    fl = {"main.tmpl": main, "primary.txt": P_DIRS[pdir][3:] + "/main.c\n" if P_DIRS[pdir] != "/w" else "main.c\n",
+          "cwd.txt": (cwd[3:] or ".") + "\n", "name.txt": name + "\n", "inc.txt": inc + "\n"}
+    links = ["%s %s" % (t, l[3:]) for l, t in P_DIRLINKS.items()]
+    for k in indices:
+        for tag, d in P_DIRS.items():
+            fl["w%s/c%d.h" % (d[2:], k)] = p_header(kind, tag, k)
+        links += ["%s %s" % (t.replace("#", str(k)), l[3:].replace("#", str(k))) for l, t in P_FILELINKS.items()]
+    fl["links.txt"] = "\n".join(links) + "\n"
+    for n, a in enumerate(streams):
+        fl["expected%s.txt" % ("" if n == 0 else "_alt%d" % n)] = " ".join(a) + "\n"
+    return fl
+
+
+def p_selfcheck(ctx):
+    """The model's path resolution against the kernel's, on the real tree (all references of all configurations)."""
+    wd = os.path.join(ctx.work, "d2_selfcheck")
+    w = p_build_tree(wd, "plain", (0,))
+    n = 0
+    v = p_vfs()
+    for label, cwd, pdir, name, inc in P_CONFIGS:
+        real_cwd = os.path.realpath(w + cwd[2:])
+        m = v.lookup("/", cwd)
+        if m is None or w + m[0][2:] != real_cwd:
+            raise core.HarnessError("part D2: model and kernel disagree on directory %s: %s / %s" % (cwd, m, real_cwd))
+        for what, target in ((name, P_DIRS[pdir] + "/main.c"), (inc, P_DIRS["r"])):
+            open(w + P_DIRS[pdir][2:] + "/main.c", "a").close()
+            real = os.path.realpath(os.path.join(real_cwd, what.replace("@W@", w)))
+            if real != w + target[2:]:
+                raise core.HarnessError("part D2: configuration %s: %s is %s, not %s" % (label, what, real, target))
+    for pdir in ("st", "r"):
+        for form, sp, lvl, tag in p_refs(pdir, 4):
+            base = P_DIRS[pdir] if form == "q" else P_DIRS["r"]
+            real = os.path.realpath(os.path.join(w + base[2:], sp.replace("#", "0").replace("@W@", w)))
+            if real != "%s%s/c0.h" % (w, P_DIRS[tag][2:]) or not os.path.isfile(real):
+                raise core.HarnessError("part D2: model and kernel disagree on %s from %s: model %s, kernel %s"
+                                        % (sp, base, tag, real))
+            n += 1
+    # and no reference was missed: every candidate spelling the model calls dangling does not exist either
+    for base in (P_DIRS["st"], P_DIRS["r"]):
+        for k in range(3):
+            for seq in itertools.product(P_COMPS, repeat=k):
+                if seq and seq[0] == "":
+                    continue
+                for leaf in ("c0.h", "ln0.h"):
+                    sp = "/".join(seq + (leaf,))
+                    if (v.lookup_file(base, sp) is not None) != os.path.isfile(os.path.join(w + base[2:], sp)):
+                        raise core.HarnessError("part D2: model and kernel disagree on the existence of %s from %s" % (sp, base))
+                    n += 1
+    shutil.rmtree(wd, ignore_errors=True)
+    return n
+
+
+def part_d2(ctx):
+    full = ctx.tier != "quick"
+    nsc = p_selfcheck(ctx)
+    configs = range(len(P_CONFIGS) if full else P_NQUICK)
+    kinds = [("once", False), ("guard", False), ("plain", False)]
+    if full:
+        kinds += [("once+guard", False), ("guard", True)]
+    per = 3 if not full else 6
+    tasks = []
+    for ci in configs:
+        for kind, undef in kinds:
+            for j in range(per):
+                tasks.append((ctx.chibicc, os.path.join(ctx.work, "d2_%d_%s%d_%d" % (ci, kind.replace("+", ""), undef, j)),
+                              ci, kind, ctx.tier, j, per, undef, ctx.deadline - 15))
+    keys = ["n", "judged", "disagree", "runs", "different_files", "same_file_other_spelling", "same_file_same_spelling",
+            "impl_defined_slots", "chibicc_includes_again", "chain_diff", "timeouts"]
+    agg = dict.fromkeys(keys, 0)
+    dis = None
+    for r in core.pmap(p_task, tasks):
+        for k in keys:
+            agg[k] += r[k]
+        if r["cut"] and ctx.exhaustive:
+            ctx.incomplete("part D2: deadline reached; the cases judged so far are reported")
+        dis = dis or r["disagree_ex"]
+        for sig, (cnt, ex) in sorted(r["viol"].items()):
+            size, ci, kind, indices, main, streams, got, st, err, rdesc = ex
+            fl = p_replay_files(ci, kind, indices, main, streams)
+            fl["observed.txt"] = "status=%s\n%s\n%s\n" % (st, " ".join(got), err)
+            ctx.violation("C10|reinclude-path|" + sig,
+                          "re-inclusion and path spelling: every copy of the header is of kind '%s'; %s; -I%s; references %s; "
+                          "acceptable streams %s, got %s (status %s)"
+                          % (kind, P_CONFIGS[ci][0], P_CONFIGS[ci][4],
+                             ", ".join("%s -> copy in %s" % (('"%s"' if f == "q" else "<%s>") % sp, P_DIRS[t]) for f, sp, t in rdesc),
+                             " | ".join(" ".join(a) for a in streams) if len(indices) == 1 else "(whole batch)",
+                             " ".join(got), st),
+                          files=fl, replay=P_REPLAY)
+            for _ in range(cnt - 1):
+                ctx.violation("C10|reinclude-path|" + sig, "")
+    if dis:
+        raise core.HarnessError("part D2: model and gcc disagree: %s, kind %s\n%s\nslot model %s, Cpp model %s, gcc %s" % dis)
+    if (agg["judged"] < 1000 or not agg["different_files"] or not agg["same_file_other_spelling"]
+            or not agg["same_file_same_spelling"] or not agg["impl_defined_slots"]):
+        raise core.HarnessError("part D2 vacuous: %s" % agg)
+    if agg["timeouts"]:
+        ctx.incomplete("part D2: %d runs timed out (machine load) and were not judged" % agg["timeouts"])
+    nrefs = {pd: len(p_refs(pd, 4 if full else 3)) for pd in ("st", "r")}
+    ctx.cover(d2_cases=agg["n"], d2_judged=agg["judged"], d2_process_runs=agg["runs"],
+              d2_later_references_to_a_different_file=agg["different_files"],
+              d2_later_references_same_file_other_spelling=agg["same_file_other_spelling"],
+              d2_later_references_same_file_same_spelling=agg["same_file_same_spelling"],
+              d2_implementation_defined_slots_either_accepted=agg["impl_defined_slots"],
+              d2_of_which_chibicc_included_again=agg["chibicc_includes_again"],
+              d2_chained_vs_alone_differences=agg["chain_diff"], oracle_disagreements=agg["disagree"],
+              traces_validated_against_impl=agg["judged"], d2_model_vs_kernel_path_lookups=nsc,
+              d2_configurations=[c[0] + "|-I" + c[4] for c in P_CONFIGS[:len(configs)]],
+              d2_header_kinds=[k + ("+guard-undefined-between" if u else "") for k, u in kinds],
+              d2_references_per_primary_dir=nrefs,
+              d2_rule="one basename with a different copy in 7 directories (w, w/r, w/r/s, w/r/s/t, w/r/o, w/r/o/q, w/r/o/t; "
+                      "s/lk -> ../o/q, s/t/up -> ../.., ln.h -> c.h file links); references = (quote form relative to the "
+                      "primary file's directory | angle form relative to the only -I directory = project root) x every "
+                      "spelling of <= %s components over {., .., empty (//), r, s, t, o, q, lk, up} + c.h|ln.h that exists, "
+                      "+ 3 absolute paths; scripts = %s; x header kind x configuration (compiler cwd, name of the primary "
+                      "file, -I spelling).  Files are identified by what the spelling resolves to (model VFS = kernel = gcc): "
+                      "different files are never conflated; the same file under another spelling with #pragma once only may "
+                      "be included once or twice" % (
+                          "4 (angle: 3)" if full else "3",
+                          "ordered pairs with one member <= 2 components (all pairs <= 3), triples of quote-form references <= 2"
+                          if full else "ordered pairs with one member <= 2 components"))
+    refs = p_refs("st", 2)
+    i = next(n for n, r in enumerate(refs) if r[:2] == ("q", "c#.h"))
+    j = next(n for n, r in enumerate(refs) if r[:2] == ("q", "../../c#.h"))
+    ctx.sample({"part": "D2", "configuration": P_CONFIGS[0][0], "header_kind": "once",
+                "main": p_case_text(refs, (i, j), 0, "/w"), "expected": p_streams(*p_accept("once", refs, (i, j), 0, False), 0, refs, (i, j))})
+
+
+# =====================================================================================================
 # Part E: -include / -D / -U orders
 # =====================================================================================================
 E_FILES = {
@@ -1403,15 +1892,16 @@ def part_e(ctx):
 def run(ctx):
     import time
     quick = ctx.tier == "quick"
-    parts = os.environ.get("C10_PARTS", "ABCDE")          # debugging aid only; the default runs everything
+    parts = os.environ.get("C10_PARTS", "ABCDE")          # debugging aid only ("D" = D and D2; "D2," = exactly D2)
     n = int(os.environ.get("C10_N", 5))                  # full alphabet; C10_N=6 is ~25 M sequences (~80 CPU-minutes)
     plan = [("A", lambda: part_a(ctx, n, 0 if quick else 6, 3 if quick else 4, 4 if quick else 5, 1 if quick else 2,
                                        4, 4 if quick else 5)), ("B", lambda: part_b(ctx)),
-            ("C", lambda: part_c(ctx)), ("C2", lambda: part_c2(ctx)), ("D", lambda: part_d(ctx)), ("E", lambda: part_e(ctx))]
+            ("C", lambda: part_c(ctx)), ("C2", lambda: part_c2(ctx)), ("D", lambda: part_d(ctx)), ("D2", lambda: part_d2(ctx)),
+            ("E", lambda: part_e(ctx))]
     secs = {}
     # the cheap parts first so that a deadline can only cut the big sequence enumeration short
     for name, fn in sorted(plan, key=lambda p: p[0] == "A"):
-        if name[0] not in parts:
+        if name not in parts.split(",") if "," in parts else name[0] not in parts:
             continue
         if ctx.out_of_time(reserve=15):
             ctx.incomplete("part %s not run: deadline" % name)
@@ -1424,6 +1914,11 @@ def run(ctx):
                "(models/c10_model.py) and gcc produce the same token stream")
     ctx.assume("#include_next in a file that was not found through the search chain (primary file: not judged; "
                "file found in the includer's directory: search starts at the head of the chain, as gcc and clang do)")
-    ctx.assume("file identity of one header reached through two spellings under #pragma once is implementation-defined: not judged")
+    ctx.assume("file identity of ONE header reached through two spellings under #pragma once is implementation-defined: "
+               "part D does not judge it, part D2 accepts both 'included once' and 'included twice'; two DIFFERENT files "
+               "are never the same file, whatever their spellings")
+    ctx.assume("`//` inside a header name is undefined behaviour (6.4.7p3): never generated in the angle form (chibicc reads "
+               "it as a comment and rejects the directive, gcc accepts it); in the quote form gcc, the model and chibicc "
+               "all read the string as a path and the case is judged")
     ctx.assume("#if: right shift of negative values, signed overflow, out-of-range shifts, division by zero and "
                "character constants outside the basic set are not judged (skipped_undefined)")
